@@ -9,6 +9,7 @@ import (
 	"os"
 	"path/filepath"
 	"runtime/debug"
+	"runtime/pprof"
 	"sort"
 	"strconv"
 	"time"
@@ -26,6 +27,12 @@ func main() {
 	explain := flag.String("explain", "", "pretty-print a replay file")
 	list := flag.Bool("list", false, "list implemented properties")
 	flag.Parse()
+	if pf := os.Getenv("UPF_CPUPROFILE"); pf != "" {
+		if f, err := os.Create(pf); err == nil {
+			_ = pprof.StartCPUProfile(f)
+			defer pprof.StopCPUProfile()
+		}
+	}
 
 	if *list {
 		var ids []string
@@ -108,7 +115,9 @@ func main() {
 		}()
 		rule(ctx)
 	}()
-	os.Exit(ctx.Finish())
+	rcF := ctx.Finish()
+	pprof.StopCPUProfile()
+	os.Exit(rcF)
 }
 
 func doExplain(path, repo string) int {
